@@ -106,7 +106,21 @@ InvalidCalls == { Call1("AddVertex", "g1", VE(VRec("", "L1", D0))), Call1("AddVe
                   Call1("AddEdge", "g1", EE(ERec("", "K1", "a", "b", D0))), Call1("AddEdge", "g1", EE(ERec("e1", "", "a", "b", D0))),
                   Call1("AddEdge", "g1", EE(ERec("e1", "K2", "", "b", D0))), Call1("AddEdge", "g1", EE(ERec("e2", "K2", "a", "", D0))),
                   Call1("AddEdge", "g1", EE(ERec("e1", "K2", "b", "a", M([k \in {"_label"} |-> S("q")])))) }
-Calls == GraphCalls \cup VertexCalls \cup EdgeCalls \cup BulkCalls \cup DelCalls \cup InvalidCalls
+\* batches that mix valid and invalid elements: the call fails, and the property leaves open whether the valid
+\* elements of the batch are stored (field alt of the history record) or nothing is (field after) - but one of the
+\* two it must be: a re-labelled vertex, a re-routed edge of such a batch is either the old one or the new one
+MixedCalls == { CallN("AddVertex", "g1", <<VE(VRec("a", "L2", D0)), VE(VRec("", "L1", D0))>>),
+                CallN("AddVertex", "g1", <<VE(VRec("b", "", D0)), VE(VRec("a", "L1", D1))>>),
+                CallN("AddEdge", "g1", <<EE(ERec("e1", "K2", "b", "a", D0)), EE(ERec("e2", "", "a", "b", D0))>>),
+                CallN("AddEdge", "g1", <<EE(ERec("e2", "K1", "", "b", D0)), EE(ERec("e1", "K1", "a", "a", D0))>>) }
+Calls == GraphCalls \cup VertexCalls \cup EdgeCalls \cup BulkCalls \cup DelCalls \cup InvalidCalls \cup MixedCalls
+
+ValidEl(el) == IF el.k = "v" THEN ValidV(el.r) ELSE ValidE(el.r)
+\* the other admissible state after a failed batch call: the valid elements stored
+AltAfter(s, c, r) ==
+  IF c.op \in {"AddVertex", "AddEdge"} /\ r[2] = "error" /\ c.g \in DOMAIN s /\ \E i \in DOMAIN c.elems : ValidEl(c.elems[i])
+  THEN SetG(s, c.g, PutAll(s[c.g], SelectSeq(c.elems, ValidEl)))
+  ELSE r[1]
 
 \* re-creating an existing graph is not a documented operation: not explored
 Enabled(c) == ~(c.op = "AddGraph" /\ c.g \in DOMAIN gs)
@@ -118,7 +132,7 @@ Do(c) ==
   /\ LET r == Eff(gs, c) IN
        /\ gs' = r[1]
        /\ hist' = IF HistLen = 0 THEN hist
-                  ELSE Append(hist, [call |-> c, res |-> r[2], after |-> r[1],
+                  ELSE Append(hist, [call |-> c, res |-> r[2], after |-> r[1], alt |-> AltAfter(gs, c, r),
                                      changed |-> {g \in GraphNames : (g \in DOMAIN gs) # (g \in DOMAIN r[1])
                                                                       \/ (g \in DOMAIN gs /\ g \in DOMAIN r[1] /\ gs[g] # r[1][g])}])
 
